@@ -6,7 +6,7 @@ import ast
 from ..absint import in_try_catching, parent_map, enclosing
 from ..dtable import simulate, collect_atoms, Unsupported
 from ..loader import norm, own_nodes, AnalysisError
-from .c11 import _callee_fns, _passed
+from .c11 import _callee_fns, _passed, effective_kw
 from .c16 import _paths
 from .common import analysed, fmt_value
 
@@ -37,6 +37,9 @@ PADDING = [
 
 def run(ctx):
     rep = ctx.report
+    from ..typestate import check_sentinels as _sentinels
+    rep.rule('R12.10', 'a local that starts as None is not compared (==, !=) with per-row values before it was tested for None: None is a legal key and cell value')
+    ctx.floor('sentinel_scan_functions', _sentinels(ctx, rep, 'R12.10', ctx.functions(['petl.transform', 'petl.util.base'])), 200)
     from ..typestate import check_functions as _rowbuffers
     rep.rule('R12.9', 'output rows are assembled in a container that is created anew (or emptied) between two deliveries: no cell of one output row is carried into the next (row-buffer typestate)')
     ctx.floor('row_buffer_generators', _rowbuffers(ctx, rep, 'R12.9', ctx.functions(['petl.transform', 'petl.util.base'])), 60)
@@ -346,6 +349,14 @@ def r128(ctx, rep):
 
 
 # ------------------------------------------------------------------------ R12.5
+# (caller, callee) pairs where the caller's `missing` has another meaning than the callee's
+MISSING_NOT_FORWARDED = {
+    ('petl.transform.reshape:iterpivot', 'petl.util.base:itervalues'):
+        "pivot's `missing` fills absent (f1, f2) combinations of the output; the first pass only collects the values of "
+        "f2 that occur, it pads nothing",
+}
+
+
 def r125(ctx, rep):
     n = 0
     for fn in ctx.functions(['petl.transform', 'petl.util']):
@@ -362,10 +373,14 @@ def r125(ctx, rep):
             if not isinstance(node, ast.Call):
                 continue
             for g, bound in _callee_fns(ctx, fn, node):
-                if 'missing' not in g.params:
+                if 'missing' not in effective_kw(ctx, g):
+                    continue
+                if (fn.fq, g.fq) in MISSING_NOT_FORWARDED:
+                    rep.held('R12.5', fn, '%s(...) without missing' % norm(node.func),
+                             'reviewed exception: ' + MISSING_NOT_FORWARDED[(fn.fq, g.fq)], node)
                     continue
                 n += 1
-                p = _passed(g, bound, node, 'missing')
+                p = _passed(g, bound, node, 'missing', fn)
                 ok = p is not None and (p[0] == 'spread' or (isinstance(p[1], ast.Name) and p[1].id == 'missing'))
                 c = '%s(..., missing=missing)' % norm(node.func)
                 if ok:
